@@ -165,6 +165,10 @@ class SeenSet:
         self.all_seen = False
 
 
+_MISSING = object()
+"""Marks an absent cache entry, None is a legitimate stored output."""
+
+
 class CacheDict(UserDict):
     ...
 
@@ -293,11 +297,11 @@ class IndexedCache:
 
         # Follow the concrete chain as far as it exists without exceptions
         while key in assignment:
-            next_cache = cache.get(assignment[key])
-            if next_cache is None:
+            next_cache = cache.get(assignment[key], _MISSING)
+            if next_cache is _MISSING:
                 # Try wildcard branch at this level
-                wildcard = cache.get(All)
-                if wildcard is not None:
+                wildcard = cache.get(All, _MISSING)
+                if wildcard is not _MISSING:
                     yield from self._yield_result(assignment, wildcard, key_idx, result)
                 else:
                     self.search_count += 1
@@ -311,8 +315,8 @@ class IndexedCache:
 
         if key not in assignment:
             # Prefer wildcard branch if available
-            wildcard = cache.get(All)
-            if wildcard is not None:
+            wildcard = cache.get(All, _MISSING)
+            if wildcard is not _MISSING:
                 yield from self._yield_result(assignment, wildcard, key_idx, result)
             else:
                 # Explore all branches at this level, copying only the minimal delta
